@@ -10,7 +10,7 @@ open Gedcom Gedcom.Match
     `perm` selects the arrival order handed to `winners` (0 = the sequential one).
     `match2` = the second `Compare` of an options value that already ran the same comparison once
     (stale `sentA/sentB`).  Response: sorted `l-r` pairs (`_` = absent side) — one answer per
-    resolution of the ambiguous unique-identifier choices, separated by ` | ` —, then `ties=` (two uncertain jobs at or above
+    resolution of the ambiguous unique-identifier choices, separated by ` | ` —, then `ties=` (in some resolution two uncertain jobs at or above
     the threshold share a score), `ok=` (IdsOK ∧ JobsOK), `amb=` (some left individual has more
     than one unique-identifier candidate). -/
 
@@ -107,15 +107,21 @@ def handleMatch (cmd : String) (rest : List String) : Option String :=
       | some L, some R, some prefer, some minW, some T, some F, some k =>
         let sT := lookupScore T
         let sF := lookupScore F
-        let js := jobs L R sT sF prefer
-        -- one answer per resolution of the ambiguous unique-identifier choices
-        let answers := (resolutions L R).map fun asg =>
+        -- one answer per resolution of the ambiguous unique-identifier choices.  The guards are
+        -- evaluated on the job list of THAT resolution; where they fail (score ties at or above
+        -- the threshold, or JobsOK violated) a permuted arrival need not give the sequential
+        -- result, and the sequential answer is given instead.
+        let per := (resolutions L R).map fun asg =>
           let ch := choiceOf R asg
           let s0 : Sent := if cmd == "match2" then sentAfter ch ⟨[], []⟩ L R sT prefer else ⟨[], []⟩
-          showRes (winners L R minW (permute k (jobsFrom ch s0 L R sT sF prefer)))
-        let ok := decide (IdsOK L R) && decide (JobsOK L R js)
+          let js := jobsFrom ch s0 L R sT sF prefer
+          let ties := tiesAbove minW js
+          let ok := decide (JobsOK L R js)
+          let k' := if ties || !ok then 0 else k
+          (showRes (winners L R minW (permute k' js)), ties, ok)
+        let ok := decide (IdsOK L R) && per.all (fun x => x.2.2)
         let amb := L.any fun a => (uniqueCandidates R a).length > 1
-        s!"{" | ".intercalate answers} ties={b2s (tiesAbove minW js)} ok={b2s ok} amb={b2s amb}"
+        s!"{" | ".intercalate (per.map (·.1))} ties={b2s (per.any (fun x => x.2.1))} ok={b2s ok} amb={b2s amb}"
       | _, _, _, _, _, _, _ => "bad-op"
     | _ => some "bad-op"
   | _ => none
